@@ -1270,6 +1270,16 @@ class PrivKey(PubKey):
         return super(PrivKey, self).__len__()
 
     def encrypt_keyblob(self, passphrase, enc_alg, hash_alg):
+        # if anything below fails (a cipher that cannot be used, ...) the key stays as it was
+        saved = copy.copy(self.s2k)
+        try:
+            self._encrypt_keyblob(passphrase, enc_alg, hash_alg)
+
+        except Exception:
+            self.s2k = saved
+            raise
+
+    def _encrypt_keyblob(self, passphrase, enc_alg, hash_alg):
         # PGPy will only ever use iterated and salted S2k mode
         self.s2k.usage = 254
         self.s2k.encalg = enc_alg
